@@ -204,6 +204,7 @@ type tree struct {
 	root   *node
 	nodes  []*node // preorder
 	byPath map[string][]*node
+	byTerm map[string][]*node // "field:value" -> elements carrying it
 }
 
 func (d Doc) tree() *tree {
@@ -227,8 +228,12 @@ func (d Doc) tree() *tree {
 		add(t.root, "tags", map[string]string{"tags.t": tg.T})
 	}
 	t.byPath = map[string][]*node{}
+	t.byTerm = map[string][]*node{}
 	for _, n := range t.nodes {
 		t.byPath[n.path] = append(t.byPath[n.path], n)
+		for f, v := range n.fields {
+			t.byTerm[f+":"+v] = append(t.byTerm[f+":"+v], n)
+		}
 	}
 	return t
 }
@@ -474,8 +479,13 @@ func hit(m []*node, a *node) bool {
 	return false
 }
 
-func (e *evaluator) evalAll(qs []*Q) [][]*node {
-	out := make([][]*node, len(qs))
+func (e *evaluator) evalAll(qs []*Q, buf *[3][]*node) [][]*node {
+	var out [][]*node
+	if len(qs) <= len(buf) {
+		out = buf[:len(qs)]
+	} else {
+		out = make([][]*node, len(qs))
+	}
 	for i, q := range qs {
 		out[i] = e.eval(q)
 	}
@@ -518,17 +528,12 @@ func (e *evaluator) eval(q *Q) []*node {
 	}
 	switch q.Kind {
 	case "term":
-		var out []*node
-		for _, n := range e.t.byPath[pathOf(q.Field)] {
-			if n.fields[q.Field] == q.Val {
-				out = append(out, n)
-			}
-		}
-		return out
+		return e.t.byTerm[q.str] // String() of a term is field:value
 	case "all":
 		return e.t.nodes
 	case "conj":
-		ms := e.evalAll(q.Subs)
+		var b [3][]*node
+		ms := e.evalAll(q.Subs, &b)
 		var out []*node
 		for _, a := range e.level(q.lvl) {
 			if allHit(ms, a) {
@@ -537,7 +542,8 @@ func (e *evaluator) eval(q *Q) []*node {
 		}
 		return out
 	case "disj":
-		ms := e.evalAll(q.Subs)
+		var b [3][]*node
+		ms := e.evalAll(q.Subs, &b)
 		if q.Min <= 1 {
 			return union(ms)
 		}
@@ -549,9 +555,10 @@ func (e *evaluator) eval(q *Q) []*node {
 		}
 		return out
 	case "bool":
-		must := e.evalAll(q.Must)
-		should := e.evalAll(q.Should)
-		not := e.evalAll(q.MustNot)
+		var b1, b2, b3 [3][]*node
+		must := e.evalAll(q.Must, &b1)
+		should := e.evalAll(q.Should, &b2)
+		not := e.evalAll(q.MustNot, &b3)
 		hasMust := len(must) > 0
 		min := q.effMin()
 		// step 1: the must clauses (a conjunction built by the boolean query)
